@@ -2,6 +2,7 @@ import Gomjml.Core.MixedProofs
 import Gomjml.Gen.Parser
 import Driver.PassP
 import Gomjml.Core.TextFlow
+import Gomjml.Core.TextVoid
 /-! driver sub-protocol `mixed <parts>`: the content tree of an element in prefix notation —
     `T <hex>` a text run, `N <hex name> <k> (<hex key> <hex value>)×k <m>` an element followed by its m parts; the whole
     request is `<m>` followed by the m top-level parts (`-` = empty hex).
@@ -68,6 +69,12 @@ def handle (args : List String) : String :=
 def textHandle (args : List String) : String :=
   match args with
   | [h] => hexOrDash (Gomjml.TextFlow.textInner (unhex h))
+  | _ => "bad-request"
+
+/-- `textvoid <hex>`: `TextVoid.normalize` of the fragment, hex -/
+def voidHandle (args : List String) : String :=
+  match args with
+  | [h] => hexOrDash (Gomjml.TextVoid.normalize (unhex h))
   | _ => "bad-request"
 
 end Driver.MixP
